@@ -155,6 +155,17 @@ def gen(repo) -> str:
     else:
         raise RegenError("%s: visitCode updates __M_locals with the keys `%s` (expected node.declared_identifiers())" % (rel, src_it))
 
+    # visitCallTag: `callable_identifiers.declared.discard("caller")` - the defs of a <%call> take `caller` from the call stack
+    vct = find_func(gen_cls.body, "visitCallTag", rel)
+    drop = set()
+    for n in ast.walk(vct):
+        if isinstance(n, ast.Call) and isinstance(n.func, ast.Attribute) and n.func.attr in ("discard", "remove") \
+                and ast.unparse(n.func.value) == "callable_identifiers.declared" and len(n.args) == 1 \
+                and isinstance(n.args[0], ast.Constant) and isinstance(n.args[0].value, str):
+            drop.add(n.args[0].value)
+    if drop - {"caller"}:
+        raise RegenError("%s: visitCallTag discards %r from callable_identifiers.declared" % (rel, sorted(drop)))
+
     out = [HEADER % "mako/codegen.py (TOPLEVEL_DECLARED, RESERVED_NAMES, _Identifiers), mako/template.py (Template.reserved_names)",
            "", "namespace MakoModel.Generated.Names", "",
            "/-- `codegen.TOPLEVEL_DECLARED` (sorted) -/",
@@ -174,5 +185,7 @@ def gen(repo) -> str:
            "def mlocalsSorted : Bool := " + ("true" if ml_sorted else "false"),
            "/-- `visitCode` copies the declared identifiers of the block into `__M_locals` *minus* the body's arguments -/",
            "def mlocalsUpdateMinusArgs : Bool := " + ("true" if ml_minus_args else "false"),
+           "/-- `visitCallTag` removes `caller` from `callable_identifiers.declared` before the defs of the call are written -/",
+           "def callDefsDropCaller : Bool := " + ("true" if drop else "false"),
            "", "end MakoModel.Generated.Names", ""]
     return "\n".join(out)
